@@ -162,8 +162,39 @@ static int do_etsgrow() {
     return 0;
 }
 
+// etsseq: T OS threads, accesses executed one at a time in the given order; white-box dump of the table for the comparison with EtsModel
+// input: T tid*   output: my_count, number of arrays, per array in creation order (lg_size, used slots), -7, initialiser calls per thread
+static thread_local int tl_index = -1;
+static int do_etsseq() {
+    std::vector<i128> c; Out o; Watchdog wd(20.0);
+    while (read_case(c)) {
+        int T = (int)c[0];
+        std::vector<int> inits(T, 0);
+        tbb::enumerable_thread_specific<long> ets([&] { if (tl_index >= 0) inits[tl_index]++; return 0L; });
+        struct Worker { std::mutex m; std::condition_variable cv; int cmd = 0; bool done = true; std::thread th; };
+        std::vector<std::unique_ptr<Worker>> w; std::atomic<bool> quit{false};
+        for (int t = 0; t < T; ++t) { w.emplace_back(new Worker); Worker* me = w.back().get();
+            me->th = std::thread([&, t, me] { tl_index = t; for (;;) { std::unique_lock<std::mutex> l(me->m); me->cv.wait(l, [&] { return me->cmd != 0 || quit.load(); }); if (quit.load() && me->cmd == 0) return;
+                me->cmd = 0; l.unlock(); ets.local() += 1; l.lock(); me->done = true; me->cv.notify_all(); } }); }
+        wd.arm(&o);
+        for (size_t i = 1; i < c.size(); ++i) { int t = (int)c[i]; if (t < 0 || t >= T) continue;
+            { std::lock_guard<std::mutex> l(w[t]->m); w[t]->done = false; w[t]->cmd = 1; w[t]->cv.notify_all(); }
+            std::unique_lock<std::mutex> l(w[t]->m); w[t]->cv.wait(l, [&] { return w[t]->done; }); }
+        wd.disarm();
+        quit = true; for (auto& x : w) { { std::lock_guard<std::mutex> l(x->m); x->cv.notify_all(); } x->th.join(); }
+        std::vector<std::pair<size_t, size_t>> arrs;
+        for (auto* a = ets.my_root.load(); a; a = a->next) { size_t used = 0; for (size_t i = 0; i < a->size(); ++i) if (!a->at(i).empty()) used++; arrs.push_back({a->lg_size, used}); }
+        o.put_u64(ets.my_count.load()); o.put_u64(arrs.size());
+        for (size_t i = arrs.size(); i-- > 0;) { o.put_u64(arrs[i].first); o.put_u64(arrs[i].second); }
+        o.put(-7); for (int t = 0; t < T; ++t) o.put(inits[t]);
+        o.flush();
+    }
+    return 0;
+}
+
 int main(int argc, char** argv) {
     std::string m = argc > 1 ? argv[1] : "";
+    if (m == "etsseq") return do_etsseq();
     if (m == "once") return do_once();
     if (m == "etsgrow") return do_etsgrow();
     if (m == "ets") return do_ets();
